@@ -550,9 +550,9 @@ pub fn main(mode: Mode) -> i32 {
             ctx.run_regressions(&p);
             let scripts = small_scripts(ctx.thorough());
             let bound = if ctx.thorough() { 3 } else { 2 };
-            let cap = ctx.n(60_000, 3_000_000) as u64;
+            let cap = ctx.n(200_000, 3_000_000) as u64;
             run_exhaustive(&mut ctx, &check, &pool, "exhaustive", &scripts, bound, cap);
-            let n = ctx.n(40_000, 1_000_000);
+            let n = ctx.n(100_000, 2_000_000);
             ctx.run_search(&p, n, 600, 300);
             for c in ["try-terminate-while-other-holds-unpublished-work", "wake-up-races-with-try-terminate", "resumed-after-wake-up", "stolen-from-other-worker"] {
                 let total = ctx.classes.get(&format!("random/{c}")).copied().unwrap_or(0) + ctx.classes.get(&format!("exhaustive/{c}")).copied().unwrap_or(0);
@@ -561,6 +561,8 @@ pub fn main(mode: Mode) -> i32 {
                     ctx.require_class(&format!("all/{c}"));
                 }
             }
+            // evidence goes to evidence/parts/C12.json (the main C12 check merges it)
+            Ctx::write_as_part();
             ctx.finish()
         }
     }
